@@ -11,6 +11,13 @@ env.pop("SRLIFE_VERIF", None)
 env.pop("PYTHONPATH", None)
 fd, junit = tempfile.mkstemp(suffix=".xml", dir=os.path.join(os.path.dirname(os.path.abspath(__file__)), ".."))
 os.close(fd)
+def untracked():
+    out = subprocess.run(["git", "-C", "/repo", "status", "--porcelain", "--untracked-files=all"],
+                         capture_output=True, text=True).stdout
+    return {l[3:] for l in out.splitlines() if l.startswith("??")}
+
+
+before = untracked()
 try:
     subprocess.run(["/venv/bin/python", "-m", "pytest", "-ra", "-q", "-p", "no:cacheprovider", "--timeout=900",
                     "--continue-on-collection-errors", "--junitxml=" + junit], cwd="/repo", env=env,
@@ -21,6 +28,11 @@ try:
             passed.add("%s::%s" % (tc.get("classname"), tc.get("name")))
 finally:
     os.remove(junit)
+    for f in untracked() - before:   # files the tests drop into their cwd
+        try:
+            os.remove(os.path.join("/repo", f))
+        except OSError:
+            pass
 want = set(base["stable_pass"])
 missing = sorted(want - passed)
 print("baseline: %d/%d stable tests pass (%d passed in total)" % (len(want) - len(missing), len(want), len(passed)))
